@@ -46,6 +46,16 @@ def check(case):
         c3 = DiffusionCurve(mixture=mix, membrane_name='m', feed_temperature=T, feed_compositions=xs, partial_fluxes=c2.partial_fluxes)
         for i in range(len(xs)):
             if not (close(c3.permeances[i][0].value, P1, 1e-9) and close(c3.permeances[i][1].value, P2, 1e-9)): fails.append("re-inversion in vacuum (%s)" % units)
+    # Pervaporation.ideal_diffusion_curve: the package's own composition of solver and inversion reports the membrane's permeances back
+    if mode != 'pressure' and case.get('feed_type') != 'molar':       # pressure mode: known finding K2 (covered above with its fingerprint)
+        try:
+            cv = pv.ideal_diffusion_curve(T, xs, Tp, pp, 1e-9)
+            w1 = mem.get_permeance(T, mix.first_component).convert('kg/(m2*h*kPa)', mix.first_component).value
+            w2 = mem.get_permeance(T, mix.second_component).convert('kg/(m2*h*kPa)', mix.second_component).value
+            for i, p in enumerate(cv.permeances):
+                if not (close(p[0].value, w1, 1e-5) and close(p[1].value, w2, 1e-5)):
+                    fails.append("ideal_diffusion_curve, %s mode, point %d: curve reports permeances (%r, %r), the membrane has (%r, %r) at %r K" % (mode, i, p[0].value, p[1].value, w1, w2, T)); break
+        except (ValueError, ZeroDivisionError, KeyError): pass
     return fails[:6]
 
 
